@@ -54,7 +54,13 @@ NATIVE = {
         ("C08:Bag.vector", "histogrammar.primitives.bag.Bag.__mul__", "bounded:vector-bags-scale-like-refill",
          "Bag of range N2 / N3: h * 2 equals filling with doubled weights; h * 0 is empty"),
     ],
+    "C12": [
+        ("C12:rollback", "histogrammar.defs.Container.fill", "bounded:failing-fill-leaves-the-tree-bit-identical",
+         "every class x failing child {Sum, Average, Deviate, Minimize, Maximize, Bin, SparselyBin, Categorize} x failure mode {exception, list, complex, numpy.str_}, after prefixes filled with weight 1 and with weight 0.1, failing fill with weight 1 and 0.2 (an undo by subtraction is not exact in doubles): the JSON before and after the failing fill is identical - the rounding level that A-REAL abstracts"),
+    ],
     "C02": [
+        ("C02:Stack.unsorted", "histogrammar.primitives.stack.Stack.fill", "bounded:levels-of-an-unsorted-stack",
+         "Stack with thresholds (5,1,3), (3,1), (2,2,0), (0,1,2) - the constructor keeps the given order; the proved contract has wf `thresholds increasing` - filled with 10 weighted data incl. NaN, +-inf, zero and negative weights: level k holds the weight of the data with q >= t_k"),
         ("C02:Bag.vector", "histogrammar.primitives.bag.Bag._update", "bounded:vector-keys-form-a-value-to-weight-map",
          "Bag of range N2 / N3 (outside the wf of the proved Bag.fill contract, which covers ranges N and S): sequences of up to 3 fills of vectors over {0.5, -1, nan (a fresh float object each time), inf}: one key per distinct vector with NaN == NaN, weights add up to entries, content independent of the fill order, JSON round trip keeps keys and weight"),
     ],
